@@ -248,6 +248,13 @@ def policy_programs():
          [(2, 3, 4)], {}),
         ("nchw", lambda x: jax.nn.sigmoid(x) * x, [(2, 5, 7, 3)], {"inputs_as_nchw": [0], "outputs_as_nchw": [0]}),
         ("mean", lambda x: jnp.mean(jnp.transpose(x, (0, 2, 1)), axis=1, keepdims=True), [(2, 3, 4)], {}),
+        ("nchw_residual", lambda x, y: jnp.tanh(x) + y + x, [(2, 5, 7, 3), (2, 5, 7, 3)],
+         {"inputs_as_nchw": [0, 1], "outputs_as_nchw": [0]}),
+        ("nchw_mean", lambda x: jnp.mean(x, axis=(1, 2), keepdims=True) * 2.0, [(2, 5, 7, 3)],
+         {"inputs_as_nchw": [0], "outputs_as_nchw": [0]}),
+        ("reshape_chain", lambda x: jnp.reshape(jax.nn.relu(jnp.reshape(x, (2, 12))), (2, 3, 4)) + 1.0,
+         [(2, 3, 4)], {}),
+        ("cast_chain", lambda x: (x.astype(jnp.float64).astype(jnp.float32) * 2.0).astype(jnp.float32), [(3, 4)], {}),
     ]
 
 
@@ -337,6 +344,100 @@ def check_policy(chk: Check, thorough: bool) -> None:
         if old_env is not None:
             os.environ[env_key] = old_env
     chk.info("optimizer_abort_injections", {"passes": len(passes), "injections_executed": n_inj})
+
+
+def check_midpass(chk: Check) -> None:
+    """Thorough tier: abort INSIDE a pass, at every onnx_ir mutation call the custom passes make."""
+    import onnx
+    import onnx_ir as ir
+    import irtools
+    import jax2onnx.converter.ir_optimizations as opt
+    import jax2onnx.converter.conversion_api as capi
+    from jax2onnx import to_onnx
+
+    class Abort(RuntimeError):
+        pass
+
+    targets = [(ir.convenience, "replace_all_uses_with"), (ir.Graph, "remove"), (ir.Node, "replace_input_with")]
+    orig = {(o, n): getattr(o, n) for o, n in targets}
+    st = {"count": 0, "fail_at": None, "active": False, "pass": None, "hit_pass": None}
+
+    def make(o, n):
+        f = orig[(o, n)]
+
+        def w(*a, **k):
+            if st["active"]:
+                st["count"] += 1
+                if st["fail_at"] is not None and st["count"] == st["fail_at"]:
+                    st["hit_pass"] = st["pass"]
+                    raise Abort(f"injected at mutation call {st['count']} ({n})")
+            return f(*a, **k)
+        return w
+
+    real_run = opt._run_top_level_optimizer_pass
+    real_opt = capi.optimize_graph
+
+    def run_pass(p, model):
+        st["pass"] = p.name
+        return real_run(p, model)
+
+    def wrapped(model):
+        st["active"] = True
+        st["count"] = 0
+        try:
+            return real_opt(model)
+        finally:
+            st["active"] = False
+
+    total = 0
+    try:
+        for o, n in targets:
+            setattr(o, n, make(o, n))
+        opt._run_top_level_optimizer_pass = run_pass
+        capi.optimize_graph = wrapped
+        for name, fn, specs, kw in policy_programs():
+            xs = [np.asarray(((np.arange(int(np.prod(s))) * 0.37) % 5.0 - 2.0).reshape(s), dtype=np.float32)
+                  for s in specs]
+            ref = fn(*xs)
+            ref = list(ref) if isinstance(ref, (tuple, list)) else [ref]
+            st["fail_at"] = None
+            to_onnx(fn, [tuple(s) for s in specs], **kw)
+            ncalls = st["count"]
+            for k in range(1, ncalls + 1):
+                st["fail_at"] = k
+                model = to_onnx(fn, [tuple(s) for s in specs], **kw)
+                total += 1
+                effect = None
+                try:
+                    feeds = {}
+                    for i, (inp, x) in enumerate(zip(model.graph.input, xs)):
+                        feeds[inp.name] = np.transpose(x, (0, 3, 1, 2)) if i in kw.get("inputs_as_nchw", []) else x
+                    got = irtools.run_ort(model, feeds)
+                    for j, (g, r) in enumerate(zip(got, ref)):
+                        r = np.asarray(r)
+                        if j in kw.get("outputs_as_nchw", []):
+                            r = np.transpose(r, (0, 3, 1, 2))
+                        if g.shape != r.shape or not np.allclose(g, r, rtol=1e-4, atol=1e-5):
+                            effect = "result_differs_from_jax"
+                except Exception:  # noqa: BLE001
+                    effect = "model_does_not_run"
+                if effect is None:
+                    try:
+                        onnx.checker.check_model(model, full_check=True)
+                    except Exception:  # noqa: BLE001
+                        effect = "stale_annotation_rejected_by_strict_shape_inference"
+                case = {"program": name, "pass": st["hit_pass"], "mutation_call": k, "effect": effect}
+                chk.count({"op": "midpass_abort", **case}, nontrivial=True)
+                if effect is not None:
+                    chk.finding({"kind": "mid_pass_abort", "pass": st["hit_pass"], "effect": effect},
+                                f"{name}: abort inside pass {st['hit_pass']} (mutation call {k}) leaves a model "
+                                f"with {effect}", case)
+    finally:
+        for (o, n), f in orig.items():
+            setattr(o, n, f)
+        opt._run_top_level_optimizer_pass = real_run
+        capi.optimize_graph = real_opt
+    chk.info("midpass_abort_injections", total)
 
 
 # ----------------------------------------------------------------------------- unsupported
@@ -442,6 +543,8 @@ def run(chk: Check) -> None:
     proved = chk.prove(MODS, checker=thorough)
     check_dispatcher(chk, rng, 3000 if thorough else 600)
     check_policy(chk, thorough)
+    if thorough:
+        check_midpass(chk)
     check_unsupported(chk)
     if not proved and not chk.violations:
         chk.violation({"broken": getattr(chk, "broken", []),
